@@ -20,7 +20,7 @@ func init() {
 		Text: "In package d2 every write to a serviceUris.uris map (index assignment, delete) has as base a variable that, on every path to the write, was last assigned in the same function from serviceUris.copy() or a " +
 			"composite literal; copy() allocates a new map with make and copies every entry; no function stores into a Uri's maps, or through a *Uri at all, except Uri.UnmarshalJSON on its receiver.",
 		Props: []string{"C19", "C17"},
-		Floor: map[string]int{"v2": 5, "root": 5},
+		Floor: map[string]int{"v2": 3, "root": 3}, // write sites merge when the copy-then-write pairs become helpers (benign C19-g2)
 		Run:   runR191,
 	})
 	core.Register(&core.Rule{
@@ -165,34 +165,137 @@ func runR191(c *core.Ctx) {
 	if writes == 0 {
 		c.Unknown(rel, "-", "writes to serviceUris.uris", token.NoPos, "none found")
 	}
-	// copy(): make + full copy loop
+	// copy(): the map that ends up in the new snapshot is made here and receives every entry of the receiver's map
 	copyD := c.M.Decl(copyF)
 	mk, loop := false, false
-	var newVar types.Object
-	ast.Inspect(copyD.Body, func(n ast.Node) bool {
-		switch x := n.(type) {
-		case *ast.KeyValueExpr:
-			if id, ok := x.Key.(*ast.Ident); ok && id.Name == "uris" {
-				if call, ok := core.Unparen(x.Value).(*ast.CallExpr); ok {
-					if fid, ok := core.Unparen(call.Fun).(*ast.Ident); ok && fid.Name == "make" {
-						mk = true
-					}
+	isMake := func(e ast.Expr) bool {
+		switch r := core.Unparen(e).(type) {
+		case *ast.CompositeLit:
+			return true
+		case *ast.CallExpr:
+			if fid, ok := core.Unparen(r.Fun).(*ast.Ident); ok && fid.Name == "make" {
+				return true
+			}
+		}
+		return false
+	}
+	isClone := func(e ast.Expr) bool {
+		call, ok := core.Unparen(e).(*ast.CallExpr)
+		if !ok || len(call.Args) != 1 {
+			return false
+		}
+		cf := core.Callee(inf, call)
+		if cf == nil || cf.Pkg() == nil || cf.Pkg().Path() != "maps" || cf.Name() != "Clone" {
+			return false
+		}
+		base, ok := fieldNamed(inf, call.Args[0], su, "uris")
+		return ok && core.ObjOf(inf, base) == recvObj(inf, copyD)
+	}
+	// destinations: local map variables and struct locals whose uris field is the new map
+	dstMaps := map[types.Object]bool{}    // m   in `uris: m` / `X.uris = m`
+	dstStructs := map[types.Object]bool{} // X   in `X := &serviceUris{uris: make(…)}` / `X.uris = make(…)`
+	note := func(holder ast.Expr, val ast.Expr) {
+		if isClone(val) {
+			mk, loop = true, true
+			return
+		}
+		if isMake(val) {
+			mk = true
+			if holder != nil {
+				if o := core.ObjOf(inf, holder); o != nil {
+					dstStructs[o] = true
 				}
 			}
-		case *ast.AssignStmt:
-			if len(x.Lhs) == 1 && x.Tok == token.DEFINE {
-				newVar = core.ObjOf(inf, x.Lhs[0])
+			return
+		}
+		if o := core.ObjOf(inf, val); o != nil {
+			dstMaps[o] = true
+		}
+	}
+	ast.Inspect(copyD.Body, func(n ast.Node) bool {
+		as, ok := n.(*ast.AssignStmt)
+		if !ok || len(as.Lhs) != len(as.Rhs) {
+			return true
+		}
+		for i, l := range as.Lhs {
+			r := core.Unparen(as.Rhs[i])
+			if u, ok := r.(*ast.UnaryExpr); ok && u.Op == token.AND {
+				r = core.Unparen(u.X)
 			}
-		case *ast.RangeStmt:
-			if base, ok := fieldNamed(inf, x.X, su, "uris"); ok && core.ObjOf(inf, base) == recvObj(inf, copyD) {
-				for _, s := range x.Body.List {
-					if as, ok := s.(*ast.AssignStmt); ok && len(as.Lhs) == 1 {
-						if ix, ok := core.Unparen(as.Lhs[0]).(*ast.IndexExpr); ok && core.ObjOf(inf, ix.Index) == core.ObjOf(inf, x.Key) {
-							if b, ok := fieldNamed(inf, ix.X, su, "uris"); ok && core.ObjOf(inf, b) == newVar && core.ObjOf(inf, as.Rhs[0]) == core.ObjOf(inf, x.Value) {
-								loop = true
+			if cl, ok := r.(*ast.CompositeLit); ok {
+				if t := namedOf(inf.Types[cl].Type); t != nil && t.Obj() == su {
+					for _, el := range cl.Elts {
+						if kv, ok := el.(*ast.KeyValueExpr); ok {
+							if id, ok := kv.Key.(*ast.Ident); ok && core.NameOf(inf.Uses[id]) == "uris" {
+								note(l, kv.Value)
 							}
 						}
 					}
+				}
+			}
+			if base, isF := fieldNamed(inf, l, su, "uris"); isF && core.ObjOf(inf, base) != recvObj(inf, copyD) {
+				note(base, as.Rhs[i])
+			}
+		}
+		return true
+	})
+	// literals that are returned directly
+	ast.Inspect(copyD.Body, func(n ast.Node) bool {
+		if cl, ok := n.(*ast.CompositeLit); ok {
+			if t := namedOf(inf.Types[cl].Type); t != nil && t.Obj() == su {
+				for _, el := range cl.Elts {
+					if kv, ok := el.(*ast.KeyValueExpr); ok {
+						if id, ok := kv.Key.(*ast.Ident); ok && core.NameOf(inf.Uses[id]) == "uris" {
+							note(nil, kv.Value)
+						}
+					}
+				}
+			}
+		}
+		return true
+	})
+	// a local map destination must itself be made here
+	for m := range dstMaps {
+		made := false
+		ast.Inspect(copyD.Body, func(n ast.Node) bool {
+			if as, ok := n.(*ast.AssignStmt); ok && len(as.Lhs) == len(as.Rhs) {
+				for i, l := range as.Lhs {
+					if core.ObjOf(inf, l) == m && isMake(as.Rhs[i]) {
+						made = true
+					}
+					if core.ObjOf(inf, l) == m && isClone(as.Rhs[i]) {
+						mk, loop = true, true
+					}
+				}
+			}
+			return true
+		})
+		if made {
+			mk = true
+		} else {
+			delete(dstMaps, m)
+		}
+	}
+	ast.Inspect(copyD.Body, func(n ast.Node) bool {
+		x, ok := n.(*ast.RangeStmt)
+		if !ok {
+			return true
+		}
+		if base, ok := fieldNamed(inf, x.X, su, "uris"); ok && core.ObjOf(inf, base) == recvObj(inf, copyD) {
+			for _, s := range x.Body.List {
+				as, ok := s.(*ast.AssignStmt)
+				if !ok || len(as.Lhs) != 1 || len(as.Rhs) != 1 {
+					continue
+				}
+				ix, ok := core.Unparen(as.Lhs[0]).(*ast.IndexExpr)
+				if !ok || x.Key == nil || x.Value == nil || core.ObjOf(inf, ix.Index) != core.ObjOf(inf, x.Key) || core.ObjOf(inf, as.Rhs[0]) != core.ObjOf(inf, x.Value) {
+					continue
+				}
+				if b, ok := fieldNamed(inf, ix.X, su, "uris"); ok && dstStructs[core.ObjOf(inf, b)] {
+					loop = true
+				}
+				if dstMaps[core.ObjOf(inf, ix.X)] {
+					loop = true
 				}
 			}
 		}
